@@ -38,6 +38,43 @@ class ErrObj:
         return int(self.obj.evaluate(self.y))
 
 
+def domain_case(cid: str, rng: random.Random, n: int, rounds: int, k: int) -> dict:
+    """What GamePlanSpace.validate accepts: k arrays in and around the domain of the property."""
+    m = tp.mods()
+    inst = tp.make_instance(n, rounds)
+    other = tp.make_instance(n, rounds, name="w")
+    space = m["GamePlanSpace"](inst)
+    days = (n - 1) * rounds
+    dom = []
+    for _ in range(k):
+        kind = rng.choice(["in", "in", "extreme", "out1", "out-far", "shape-days", "shape-teams", "dtype", "instance"])
+        d2, n2 = days, n
+        if kind == "shape-days":
+            d2 = max(1, days + rng.choice([-1, 1, 2]))
+        if kind == "shape-teams":
+            n2 = max(1, n + rng.choice([-1, 1]))
+        rows = [[rng.randint(-n, n) for _ in range(n2)] for _ in range(d2)]
+        if kind == "extreme":
+            for _ in range(rng.randint(1, 4)):
+                rows[rng.randrange(d2)][rng.randrange(n2)] = rng.choice([-n, n])
+        elif kind == "out1":
+            rows[rng.randrange(d2)][rng.randrange(n2)] = rng.choice([-n - 1, n + 1])
+        elif kind == "out-far":
+            rows[rng.randrange(d2)][rng.randrange(n2)] = rng.choice([-100, 100, -n - 2, n + 3, 127, -128])
+        dt = inst.game_plan_dtype
+        if kind == "dtype":
+            dt = np.dtype(np.int64) if dt != np.dtype(np.int64) else np.dtype(np.int32)
+        y = np.array(rows, dtype=dt).view(m["GamePlan"])
+        y.instance = other if kind == "instance" else inst
+        try:
+            space.validate(y)
+            acc = 1
+        except (ValueError, TypeError):
+            acc = 0
+        dom.append({"plan": rows, "foreign": 1 if kind in ("dtype", "instance") else 0, "accepted": acc, "kind": kind})
+    return {"id": cid, "cfg": tp.cfg_of(inst), "ub": 0, "plans": [], "dom": dom}
+
+
 def _rr4_cfg(rounds: int, c: dict, fixed: bool = False) -> str:
     return ("SPECIFICATION SpecRR\nCONSTANTS N = 4\n Rounds = %d\n HMin = %d\n HMax = %d\n AMin = %d\n"
             " AMax = %d\n SMin = %d\n SMax = %d\nINVARIANT OracleVsDoc\nINVARIANT FeasibleImpliesZero\n"
@@ -231,9 +268,14 @@ def run(prop: str, tier: str, seed: int) -> int:
         ex = Execution().set_search_space(space).set_solution_space(tp.mods()["GamePlanSpace"](inst)) \
             .set_encoding(enc).set_objective(obj).set_algorithm(RLS(Op0Shuffle(space), Op1Swap2())) \
             .set_max_fes({"quick": 4000, "thorough": 20000}[tier]).set_rand_seed(rng.randrange(1, 1 << 40))
-        with ex.execute() as proc:
-            y = ex._solution_space.create()
-            proc.get_copy_of_best_y(y)
+        try:
+            with ex.execute() as proc:
+                y = ex._solution_space.create()
+                proc.get_copy_of_best_y(y)
+        except ValueError as exc:     # the process validates its best plan with the game-plan space when it ends
+            # (judged by the game-plan-space-domain family below; here the run simply yields no plan)
+            rep.notes.append(f"search-{k}: the process rejected its own best plan: {str(exc)[:120]}")
+            continue
         rows = [[int(v) for v in r] for r in np.asarray(y).tolist()]
         eo = ErrObj(inst)
         e = eo.eval(rows)
@@ -302,9 +344,16 @@ def run(prop: str, tier: str, seed: int) -> int:
         cases.append({"id": f"long-{k}", "cfg": tp.cfg_of(inst), "ub": small(eo.ub), "plans": plans})
         rep.family("long-seasons(>127 days)", len(plans), len(plans))
         rep.nontrivial += len(plans)
+    # the domain of the property: what the game-plan space accepts
+    n_dom = {"quick": 40, "thorough": 300}[tier]
+    for k in range(n_dom):
+        n = rng.choice([2, 4, 4, 6, 8])
+        cases.append(domain_case(f"domain-{k}", rng, n, rng.randint(1, 3), 12))
+        rep.family("game-plan-space-domain", 12, 12)
+        rep.nontrivial += 12
     vs = core.validate("ttp/Trace_TTP", cases, cfg_text=_trace_cfg(), shards=14)
     core.classify(rep, vs, {c["id"]: c for c in cases}, family="random")
-    rep.traces += sum(len(c["plans"]) for c in cases)
+    rep.traces += sum(len(c["plans"]) + len(c.get("dom", [])) for c in cases)
     rep.evaluations = rep.traces
     rep.rule = ("(a) all plans with 2 teams (entries -2..2) under all admissible settings (rounds 1..2; rounds 3 "
                 "under sampled settings in thorough); (b) all day-wise consistent 4-team plans (12 per day): the real "
@@ -315,6 +364,27 @@ def run(prop: str, tier: str, seed: int) -> int:
 
 def replay(prop: str, case: dict) -> dict:
     c = case["cfg"]
+    if case.get("dom"):       # re-judge the same arrays with the real space
+        m = tp.mods()
+        inst = tp.make_instance(c["n"], c["rounds"])
+        other = tp.make_instance(c["n"], c["rounds"], name="w")
+        space = m["GamePlanSpace"](inst)
+        dom = []
+        for e in case["dom"]:
+            dt = inst.game_plan_dtype
+            if e["kind"] == "dtype":
+                dt = np.dtype(np.int64) if dt != np.dtype(np.int64) else np.dtype(np.int32)
+            y = np.array(e["plan"], dtype=dt).view(m["GamePlan"])
+            y.instance = other if e["kind"] == "instance" else inst
+            try:
+                space.validate(y)
+                acc = 1
+            except (ValueError, TypeError):
+                acc = 0
+            dom.append({**e, "accepted": acc})
+        rec = {"id": "replay", "cfg": tp.cfg_of(inst), "ub": 0, "plans": [], "dom": dom}
+        vs = core.validate("ttp/Trace_TTP", [rec], cfg_text=_trace_cfg())
+        return {"clause": vs["replay"], "case": rec}
     inst = tp.make_instance(c["n"], c["rounds"], c)
     eo = ErrObj(inst)
     rec = {"id": "replay", "cfg": tp.cfg_of(inst), "ub": small(eo.ub),
